@@ -2,6 +2,7 @@
 package netpoll
 
 import (
+	"context"
 	"fmt"
 	"io"
 	"io/ioutil"
@@ -47,6 +48,10 @@ func vcScenC14(t *vcTrial) {
 	r := t.R
 	if r.intn(40) == 0 {
 		vcRunC14Storm(t, r.rng(40000, 160000), r.rng(2, 12))
+		return
+	}
+	if r.intn(10) == 0 {
+		vcRunC14Multi(t)
 		return
 	}
 	cfg := vc14Cfg{}
@@ -544,4 +549,255 @@ func vcRunC14Storm(t *vcTrial, total, workers int) {
 	t.Stat("storm_redials_after_self_connect", int(redials))
 	t.Nontrivial = redials > 0
 	t.Sig = fmt.Sprintf("storm|redials=%v", redials > 0)
+}
+
+// ------------------------------------------------------------------ multi-address dials
+
+// vc14DNS answers A queries with the given addresses (DNS over the stream framing the Go
+// resolver uses on a net.Conn that is not a PacketConn) and everything else with an empty answer.
+func vc14DNS(conn net.Conn, addrs []net.IP) {
+	defer conn.Close()
+	for {
+		var l [2]byte
+		if _, err := io.ReadFull(conn, l[:]); err != nil {
+			return
+		}
+		q := make([]byte, int(l[0])<<8|int(l[1]))
+		if _, err := io.ReadFull(conn, q); err != nil || len(q) < 17 {
+			return
+		}
+		i := 12
+		for i < len(q) && q[i] != 0 {
+			i += int(q[i]) + 1
+		}
+		i++
+		if i+4 > len(q) {
+			return
+		}
+		qtype := int(q[i])<<8 | int(q[i+1])
+		n := 0
+		if qtype == 1 {
+			n = len(addrs)
+		}
+		r := []byte{q[0], q[1], 0x81, 0x80, 0, 1, 0, byte(n), 0, 0, 0, 0}
+		r = append(r, q[12:i+4]...)
+		for k := 0; k < n; k++ {
+			r = append(r, 0xC0, 0x0C, 0, 1, 0, 1, 0, 0, 0, 60, 0, 4)
+			r = append(r, addrs[k].To4()...)
+		}
+		out := append([]byte{byte(len(r) >> 8), byte(len(r))}, r...)
+		if _, err := conn.Write(out); err != nil {
+			return
+		}
+	}
+}
+
+// vcRunC14Multi: a host name with 2-3 addresses, each refusing, accepting or silently dropping on
+// the same port. The dial walks the addresses under one timeout: it succeeds iff an accepting
+// address comes before the first dropping one; it fails fast with a non-timeout error when every
+// address refuses; it ends at the timeout, with an error reporting Timeout(), when a dropping
+// address is reached first. Nothing may be left behind in any case.
+func vcRunC14Multi(t *vcTrial) {
+	r := t.R
+	t.P("variant", "multi-address")
+	naddr := r.rng(2, 3)
+	var ips []net.IP
+	for i := 0; i < naddr; i++ {
+		ips = append(ips, net.IPv4(127, 0, 0, byte(10+i)))
+	}
+	old := net.DefaultResolver
+	defer func() { net.DefaultResolver = old }()
+	net.DefaultResolver = &net.Resolver{PreferGo: true, Dial: func(ctx context.Context, network, address string) (net.Conn, error) {
+		c, s := net.Pipe()
+		go vc14DNS(s, ips)
+		return c, nil
+	}}
+	host := fmt.Sprintf("verif-c14-%d.test.", atomic.AddUint64(&vcSockSeq, 1))
+	res, err := net.DefaultResolver.LookupIPAddr(context.Background(), host)
+	if err != nil || len(res) != naddr {
+		t.Inconclusive("fake resolver: %v %v", res, err)
+		return
+	}
+	roles := make([]string, naddr)
+	for i := range roles {
+		roles[i] = []string{"refuse", "refuse", "accept", "drop"}[r.intn(4)]
+	}
+	t.P("roles_in_dial_order", roles)
+	var cleanup []func()
+	defer func() {
+		for i := len(cleanup) - 1; i >= 0; i-- {
+			cleanup[i]()
+		}
+	}()
+	// one port for all addresses: take it from the first socket that needs one
+	port := 0
+	bind := func(ip net.IP, backlog int) (int, bool) {
+		fd, err := syscall.Socket(syscall.AF_INET, syscall.SOCK_STREAM, 0)
+		if err != nil {
+			return -1, false
+		}
+		syscall.SetsockoptInt(fd, syscall.SOL_SOCKET, syscall.SO_REUSEADDR, 1)
+		sa := &syscall.SockaddrInet4{Port: port}
+		copy(sa.Addr[:], ip.To4())
+		if err := syscall.Bind(fd, sa); err != nil {
+			syscall.Close(fd)
+			return -1, false
+		}
+		if err := syscall.Listen(fd, backlog); err != nil {
+			syscall.Close(fd)
+			return -1, false
+		}
+		if port == 0 {
+			lsa, _ := syscall.Getsockname(fd)
+			port = lsa.(*syscall.SockaddrInet4).Port
+		}
+		return fd, true
+	}
+	if port == 0 {
+		// reserve a port number even when every address refuses
+		fd, ok := bind(net.IPv4(127, 0, 0, 99), 1)
+		if !ok {
+			t.Inconclusive("bind")
+			return
+		}
+		syscall.Close(fd)
+	}
+	for i, role := range roles {
+		ip := res[i].IP
+		switch role {
+		case "accept":
+			fd, ok := bind(ip, 64)
+			if !ok {
+				t.Inconclusive("bind accept")
+				return
+			}
+			f := os.NewFile(uintptr(fd), "c14-accept")
+			ln, err := net.FileListener(f)
+			f.Close()
+			if err != nil {
+				t.Inconclusive("listener: %v", err)
+				return
+			}
+			cleanup = append(cleanup, func() { ln.Close() })
+			go func() {
+				for {
+					c, err := ln.Accept()
+					if err != nil {
+						return
+					}
+					go func(c net.Conn) { defer c.Close(); io.Copy(c, c) }(c)
+				}
+			}()
+		case "drop":
+			fd, ok := bind(ip, 0)
+			if !ok {
+				t.Inconclusive("bind drop")
+				return
+			}
+			cleanup = append(cleanup, func() { syscall.Close(fd) })
+			for k := 0; k < 3; k++ {
+				c, err := net.DialTimeout("tcp", fmt.Sprintf("%s:%d", ip, port), 200*time.Millisecond)
+				if err != nil {
+					break
+				}
+				cc := c
+				cleanup = append(cleanup, func() { cc.Close() })
+			}
+		}
+	}
+	want := "refused"
+	for _, role := range roles {
+		if role == "accept" {
+			want = "ok"
+			break
+		}
+		if role == "drop" {
+			want = "timeout"
+			break
+		}
+	}
+	timeout := time.Duration([]int{20, 60, 150}[r.intn(3)]) * time.Millisecond
+	if want == "ok" {
+		timeout = 2 * time.Second
+	}
+	time.Sleep(2 * time.Millisecond)
+	audit := vcStartAudit()
+	before := vcOpenFDs()
+	t0 := time.Now()
+	c, derr := DialConnection("tcp", fmt.Sprintf("%s:%d", host, port), timeout)
+	el := time.Since(t0)
+	isNil := vcIsNilConn(c)
+	desc := fmt.Sprintf("dial of a name with addresses %v (timeout %v)", roles, timeout)
+	switch {
+	case derr == nil && isNil:
+		t.Violate("C14", "neither", "%s returned neither a connection nor an error", desc)
+	case derr != nil && !isNil:
+		t.Violate("C14", "both", "%s returned a connection AND the error %v", desc, derr)
+		c.Close()
+	case derr == nil:
+		if want != "ok" {
+			t.Violate("C14", "spurious_success", "%s succeeded although no address accepts before one that drops", desc)
+		} else {
+			p := make([]byte, 100)
+			vfFill(p, 7, 0)
+			c.SetReadTimeout(5 * time.Second)
+			if _, err := c.Write(p); err != nil {
+				t.Violate("C14", "unusable", "%s: the returned connection cannot send: %v", desc, err)
+			} else if q, err := c.Reader().Next(100); err != nil || vfCheck(q, 7, 0) >= 0 {
+				t.Violate("C14", "unusable", "%s: the returned connection did not echo: %v", desc, err)
+			}
+		}
+		c.Close()
+	default:
+		ne, isNet := derr.(net.Error)
+		isTO := isNet && ne.Timeout()
+		switch want {
+		case "ok":
+			t.Violate("C14", "spurious_failure", "%s failed with %v after %v although an accepting address follows only refusing ones", desc, derr, el)
+		case "timeout":
+			if !isTO {
+				t.Violate("C14", "timeout_not_reported", "%s ended after %v with %q (%T): the timeout expired while a silently dropping address was being dialed, but the error does not report Timeout()", desc, el, derr.Error(), derr)
+			}
+		case "refused":
+			if isTO && el < timeout {
+				t.Violate("C14", "early_timeout", "%s reported a timeout after %v", desc, el)
+			}
+		}
+	}
+	var diff []string
+	for dl := time.Now().Add(3 * time.Second); ; {
+		diff = vcFDDiff(before, vcOpenFDs())
+		if len(diff) == 0 || time.Now().After(dl) {
+			break
+		}
+		time.Sleep(2 * time.Millisecond)
+	}
+	if len(diff) > 0 {
+		t.Violate("C14", "descriptor_leak", "after the %s the process holds %d extra descriptor(s): %v", desc, len(diff), diff)
+	}
+	allocs, frees := 0, 0
+	for dl := time.Now().Add(2 * time.Second); ; {
+		allocs, frees = 0, 0
+		audit.mu.Lock()
+		for _, e := range audit.ops {
+			switch int(e.Point) {
+			case vpOpAlloc:
+				allocs++
+			case vpOpFreeable:
+				frees++
+			}
+		}
+		audit.mu.Unlock()
+		if allocs == frees || time.Now().After(dl) {
+			break
+		}
+		time.Sleep(2 * time.Millisecond)
+	}
+	if allocs != frees {
+		t.Violate("C14", "registration_leak", "poller slots after the %s: %d allocated, %d released", desc, allocs, frees)
+	}
+	t.Stat("multi_address_dials", 1)
+	t.Stat("dials", 1)
+	t.Nontrivial = true
+	t.Sig = fmt.Sprintf("multi|%v|%s", roles, want)
 }
